@@ -1,7 +1,6 @@
 package c12
 
 import (
-	"context"
 	"fmt"
 	"math/rand/v2"
 	"strings"
@@ -143,16 +142,15 @@ func (rg *rig) fresh(gen func() *object) *object {
 // then - after a healthy hit - once more to see it served locally.
 func (rg *rig) readCase(cs caseSpec, id string, rng *rand.Rand) {
 	r := rg.w.r
-	ctx, cancel := context.WithTimeout(context.Background(), 120*time.Second)
-	defer cancel()
-
 	o := rg.makeObject(rng, cs, id)
 	p := cs.e.build(rg, o, rng)
 	if p.target != cs.op.target {
 		p.target = cs.op.target
 	}
 	expect := p.expect(cs.op.known)
-	if expect == expLies {
+	if expect == expLies || p.corrupt != nil {
+		// what gets cached for a key the backend lied about (or whose header
+		// it garbled in a way that does not matter) is outside the oracle
 		rg.noteLie(o.hash)
 	}
 	det := &readDetail{Rig: rg.name, Case: id, Op: cs.op.name, Plan: p.label, Object: o.String(), Expect: expect}
@@ -172,7 +170,7 @@ func (rg *rig) readCase(cs caseSpec, id string, rng *rand.Rand) {
 	defer rg.attributeOpen(open0, cs, p, det)
 
 	n0 := rg.be.reqCount(o.hash)
-	out1 := cs.op.run(ctx, rg, rg.front, o)
+	out1 := rg.runOp(cs.op, rg.front, o)
 	n1 := rg.be.reqCount(o.hash)
 	log("backend plan %s; %s -> %s (backend requests for the key: %d)", p.label, cs.op.name, out1, n1-n0)
 	r.Eval()
@@ -199,7 +197,7 @@ func (rg *rig) readCase(cs caseSpec, id string, rng *rand.Rand) {
 	if rng.IntN(2) == 0 {
 		op2 = rg.altOp(cs.op, rng)
 	}
-	out2 := op2.run(ctx, rg, rg.front, o)
+	out2 := rg.runOp(op2, rg.front, o)
 	log("backend now %s; %s -> %s", after, op2.name, out2)
 	r.Eval()
 	r.Count(fmt.Sprintf("reread.%s/%s.%s", rg.family, after, out2.class))
@@ -238,7 +236,7 @@ func (rg *rig) readCase(cs caseSpec, id string, rng *rand.Rand) {
 			if !op3.caches {
 				op3 = op2
 			}
-			out3 := op3.run(ctx, rg, rg.front, o)
+			out3 := rg.runOp(op3, rg.front, o)
 			m1 := rg.be.reqCount(o.hash)
 			log("third read %s -> %s (backend requests for the key: %d)", op3.name, out3, m1-m0)
 			r.Eval()
@@ -316,6 +314,9 @@ func (rg *rig) altOp(p *op, rng *rand.Rand) *op {
 // judge applies the outcome oracle.
 func (rg *rig) judge(p *op, o *object, fault, phase string, out outcome, expect string, det *readDetail) {
 	r := rg.w.r
+	if out.class == "watchdog" {
+		return
+	}
 	if expect == expLies {
 		r.Count("oracle.content-not-judged(backend-lies-consistently)")
 		return
@@ -398,7 +399,7 @@ func (rg *rig) classBatches(half int) {
 				}
 				rg.be.setPlan(o, p)
 				rg.noteCase("class-batch/" + name)
-				out := opAPIGetUnknown.run(context.Background(), rg, rg.front, o)
+				out := rg.runOp(opAPIGetUnknown, rg.front, o)
 				r.Eval()
 				r.Count(fmt.Sprintf("class-batch.%s/%s.%s", rg.name, name, out.class))
 				rg.be.clearPlan(o.hash)
